@@ -45,6 +45,18 @@ M2 = {
  "C19": ("a cancelled block object invoked directly returns without counting as performed", "a block cancelled before it starts, executed by a plain call, observed by wait / notify", "tr_block oracle", False),
  "C20": ("_dispatch_data_subrange_map accepts a short sub-range", "input whose final element is cut short by the end of the data", "L-fn differential (NULL expected) + ASan", False),
 }
+M3 = {
+ "C01": ("os_mpsc_pop_head stores the new head after the tail compare-and-swap instead of before (one store instead of two)", "the popped item is the last one and another submission lands between the tail CAS and the late head store", "lane storm with yield perturbation at the atomic sites: stranded items / hang (STUCK)", False),
+ "C02": ("main queue callback: a refused nested call clears the outer drain's re-entrancy guard; the drain adopts the anonymous wlh recursively", "the main queue drained run-loop style and an item spinning a nested run loop that calls the drain callback at least twice", "c02_mainq (added): run-loop drained main queue with nested callback calls inside items: overlap / order", True),
+ "C03": ("stop_dq test of _dispatch_sync_complete_recurse hoisted out of the per-level loop", "dispatch_async_and_wait through an upper queue of a hierarchy whose serial bottom is busy, then a dispatch_sync", "c03_hier with async_and_wait / barrier_async_and_wait submissions (added): overlap across the hierarchy, then hang (watchdog added)", True),
+ "C04": ("retry path of _dispatch_lane_drain_non_barriers does not test the new head for being a barrier", "a barrier landing between the list becoming empty and the unlock of a dispatch_barrier_sync that redirects queued readers", "lane storm: the library traps (barrier redirected as a reader)", False),
+ "C05": ("dispatch_group_wait computes the generation to wait on from new_state only when it set the waiters bit itself (otherwise generation 0)", "a re-used group (generation != 0), waiters bit already set by another waiter or an expired timed wait, group not empty", "c05_hb re-used group with a timed-out wait followed by two concurrent waits (added); also tr_group storm (C07)", True),
+ "C06": ("_dispatch_queue_invoke_finish decides not to re-enqueue from a read of dq_state made before its compare-and-swap loop", "the last resume, from another thread, landing between that read and the compare-and-swap", "c06_suspend hand-over scenario with the drainer held after reads of dq_state (added); FinishW replay of every invoke_finish compare-and-swap (added: the written word is runnable and not enqueued)", True),
+ "C07": ("_dispatch_group_wait_slow treats any non-zero return of the address wait as a timeout (EINTR)", "a timed wait interrupted by a signal handler installed without SA_RESTART", "tr_group mixed mode with signals sent to the blocked waiters (added): non-zero before the timeout elapsed", True),
+ "C08": ("a timed-out / polling waiter that finds a signal already posted consumes it but still returns the timeout result", "a signal landing between the waiter's decrement (or expiry) and its undo compare-and-swap", "tr_sema permit-count oracle", False),
+ "C09": ("_futex_blocking_op maps EINTR of an untimed wait to 0, and _dispatch_once_wait takes a 0 return as 'the gate is DONE'", "a signal (handler without SA_RESTART) or a spurious futex return at a caller parked on the gate while the initialiser runs", "tr_once with signals at the parked callers and injected spurious futex returns (added); OnceP now lets the futex wait return at any time", True),
+ "C10": ("_dispatch_queue_try_reserve_apply_width no longer refuses width-1 queues", "dispatch_apply on a concurrent queue whose target is a thread-bound serial queue (the main queue drained run-loop style)", "tr_apply with a concurrent queue targeting the main queue, drained by the main thread through the run-loop callback (added): index order", True),
+}
 root = os.path.join(os.path.dirname(os.path.dirname(os.path.abspath(__file__))), "seeded")
 for k, (what, needs, caught, strengthened) in sorted(M.items()):
     d = os.path.join(root, k)
@@ -66,4 +78,15 @@ for k, (what, needs, caught, strengthened) in sorted(M2.items()):
                "check_run": "git -C /repo apply /verif/seeded2/%s/patch.diff; ./check %s; git -C /repo checkout -- ." % (k, k),
                "caught_by": caught, "tier": "quick", "missed_at_first_and_check_strengthened": strengthened},
               open(os.path.join(d, "meta.json"), "w"), indent=1)
-print("meta.json written for", len(M), "+", len(M2), "seeds")
+root3 = os.path.join(os.path.dirname(root), "seeded3")
+for k, (what, needs, caught, strengthened) in sorted(M3.items()):
+    d = os.path.join(root3, k)
+    if not os.path.isdir(d): continue
+    lines = open(os.path.join(d, "confirm.log")).read().strip().splitlines() if os.path.exists(os.path.join(d, "confirm.log")) else []
+    json.dump({"property": k, "round": 3, "change": what, "needs_to_manifest": needs,
+               "produced_by": "sub-agent given the property text, its own scratch worktree, and one-line descriptions of the two earlier seeds to avoid",
+               "confirmed": {"how": "scripts/confirm_seed.sh %s /verif/seeded3/%s" % (k, k), "result": " | ".join(lines[-2:]) or "not confirmed"},
+               "check_run": "scripts/try_seed.sh %s seeded3/%s" % (k, k),
+               "caught_by": caught, "tier": "quick", "missed_at_first_and_check_strengthened": strengthened},
+              open(os.path.join(d, "meta.json"), "w"), indent=1)
+print("meta.json written for", len(M), "+", len(M2), "+", len(M3), "seeds")
